@@ -647,3 +647,70 @@ Example held_send_teardown_must_drain :
      ARead 0 2; AAck 0 [2]; ATdBegin 0; AWriteDone true [] true; ACallback 0; ADeliver 0 true; ATdWaited 0;
      ADeliver 0 true; ATdCancel 0; ATdDown 0 true] = held_log true.
 Proof. vm_compute. repeat split. Qed.
+
+(* ====================================================================================
+   Restart through the services: running_resumes and the composed crash/restart theorem
+   ==================================================================================== *)
+(* pipeline.Status as stored: 1 running, 2 system-stopped, 3 user-stopped, 4 degraded, 5 recovering *)
+Theorem running_resumes :
+  pipeline_init 1 = 2 /\ resumes 1 = true /\ resumes 2 = true /\
+  resumes 3 = false /\ resumes 4 = false /\ resumes 5 = false /\
+  (forall st, resumes st = true <-> st = 1 \/ st = 2).
+Proof.
+  repeat split; try reflexivity.
+  - unfold resumes, pipeline_init, lifecycle_starts. intros H.
+    destruct (st =? 1) eqn:E1; [left; apply Nat.eqb_eq; exact E1|right; apply Nat.eqb_eq; exact H].
+  - intros [->| ->]; reflexivity.
+Qed.
+
+Theorem full_acc_mon c l o : full_acc c l o = true -> full_mon c l o = true.
+Proof.
+  unfold full_acc, full_mon. intros H.
+  repeat (apply andb_true_iff in H; destruct H as [H ?]).
+  apply Nat.eqb_eq in H. apply eqb_prop in H3. rewrite H3, H in *. clear H3.
+  apply andb_true_iff. split.
+  - unfold resumes. apply eqb_reflx.
+  - destruct (lifecycle_starts (pipeline_init (fo_stored o))) eqn:E; [simpl|reflexivity].
+    exact H0.
+Qed.
+
+Section CrashRestart.
+Variable m : mcfg.
+Let c := m_cfg m.
+Hypothesis Hret : 1 <= retries c.
+
+(* (run prefix, crash, restart): after ANY action list the process dies; what survives is the store and
+   the pipeline's stored status.  If that status is one the restart resumes (running, or system-stopped),
+   the restarted system exists, opens every source exactly at the stored position, reads only records
+   after it, no record that was read but not yet handled by the engine lies at or before that position
+   (so an upstream that replays everything after the position it is opened with re-delivers it), and -
+   for the repaired flushNow - the plugin was never told to discard anything beyond the store.
+   If the status is not resumed, the restart starts nothing. *)
+Theorem crash_restart_no_record_skipped acts stored_status s :
+  s < nsrc c ->
+  let y := run m (init_sys m) acts in
+  let l := log_of y in
+  let st := crash y in
+  match restart_system m st stored_status with
+  | None => resumes stored_status = false
+  | Some y' =>
+      resumes stored_status = true /\
+      y' = restart m st /\
+      stP (Src y' s) = snd (st s) /\ snd (st s) = stored_pos c s l /\
+      (forall acts' r', In (ERead s r') (log_of (run (restart_cfg m st) y' acts')) -> snd (st s) < r') /\
+      (engine_in_order c s l ->
+       forall r, In r (ereads s l) -> (forall ks, In ks (eacks s l) -> ~ In r ks) -> snd (st s) < r) /\
+      (fixed c = true -> forall l1 n ks l2, l = l1 ++ EPAck s n ks :: l2 -> n <= fst (st s))
+  end.
+Proof.
+  intros Hs y l st. unfold restart_system. destruct (resumes stored_status) eqn:Hr; [|reflexivity].
+  destruct (no_skip_on_crash m Hret acts s) as (Est & Hpack & Hskip). fold y l st in Est, Hpack, Hskip.
+  destruct (restart_rereads m Hret st [] s 0 Hs) as [Hre _].
+  split; [reflexivity|]. split; [reflexivity|]. split; [exact Hre|].
+  split; [rewrite Est; reflexivity|]. split.
+  - intros acts' r' Hin. destruct (restart_rereads m Hret st acts' s r' Hs) as [_ H]. apply H. exact Hin.
+  - split; [|exact Hpack].
+    intros He r Hrd Hun. destruct (Nat.lt_ge_cases (snd (st s)) r) as [Hlt|Hge]; [exact Hlt|].
+    exfalso. destruct (Hskip He r Hrd Hge) as (ks & Hks & Hin). apply (Hun ks Hks Hin).
+Qed.
+End CrashRestart.
